@@ -3,6 +3,7 @@ CONSTANTS
   MaxLen = 3
   ExcKinds = {"ValueError", "TypeError", "AttributeError", "InvalidOperation", "OverflowError"}
   Suppressed = {"ValueError", "TypeError", "SyntaxError", "AttributeError"}
+  NoneAcceptsAll = TRUE
   Rotation = "last_first"
 INVARIANT Refines
 CHECK_DEADLOCK FALSE
